@@ -69,6 +69,40 @@ Theorem C13_param_default_reads_back :
 Proof. exact populated_scalar_reads_back. Qed.
 Print Assumptions C13_param_default_reads_back.
 
+(* ... and so a second validation changes nothing: the default-setting step of ValidateParameter
+   (Model/Defaults.v set_param_default: the default is written only for a parameter that is not
+   found, has no value and no decoding error) applied to its own result is the identity *)
+Theorem C13_param_default_setting_idempotent :
+  forall pi64 pi32 pf sprint p d,
+    pd_in p <> LPath ->
+    allowed_cell (pd_in p) (eff_style p) (eff_explode p) = true ->
+    defined_cell p (SPrim (sprint d)) = true ->
+    shape_of (pd_schema p) = ShPrim -> scalar d = true -> sprint d <> ""%string ->
+    param_default (pd_schema p) = Some d ->
+    let once := set_param_default sprint pi64 pi32 pf false p frag0 in
+    set_param_default sprint pi64 pi32 pf false p once = once.
+Proof. exact set_param_default_idempotent. Qed.
+Print Assumptions C13_param_default_setting_idempotent.
+(* "nothing else changes": whatever the request carries for a parameter - a value, an empty text
+   (the defect repaired in /repo 0d07618: the default was appended next to it, at every validation
+   again), an undecodable text - stays as it is; with default-setting skipped nothing is written *)
+Theorem C13_present_parameter_untouched :
+  forall pi64 pi32 pf sprint p f,
+    decode_param pi64 pi32 pf p f <> DRes PNil false None ->
+    set_param_default sprint pi64 pi32 pf false p f = f.
+Proof. exact set_param_default_leaves_present. Qed.
+Theorem C13_skip_leaves_parameters :
+  forall pi64 pi32 pf sprint p f, set_param_default sprint pi64 pi32 pf true p f = f.
+Proof. exact set_param_default_skipped. Qed.
+Example C13_empty_header_keeps_its_text :
+  let intS := Sch (mkCoreD (Some ["integer"]) [] false false false false "" false false false None None None 0 None "" 0 None [] 0 None None (Some (JNum 26))) None [] [] [] None [] None in
+  let p := mkPDef LHeader "X-H" "" None false false intS in
+  let f := mkFrag [] [] [("X-H", [""])] [] in
+  set_param_default (fun _ => "26") (fun _ => None) (fun _ => None) (fun _ => None) false p f = f /\
+  set_param_default (fun _ => "26") (fun _ => None) (fun _ => None) (fun _ => None) false p (mkFrag [] [] [] [])
+  = mkFrag [] [] [("X-H", ["26"])] [].
+Proof. vm_compute. split; reflexivity. Qed.
+
 (* array defaults are written the way the parameter's serialization method reads them back (the
    population used `Explode != nil && *Explode` and "," whatever the style, and fmt.Sprint for header
    arrays, until it was repaired in /repo): the forwarded request decodes to the default's elements *)
